@@ -40,7 +40,7 @@ CORR = {
     'C04': ['K-parse', 'K-view'], 'C05': ['K-parse', 'K-edit'], 'C06': ['K-tok', 'K-parse'],
     'C07': ['K-parse'], 'C08': ['K-tok', 'K-parse'], 'C09': ['K-tok', 'K-parse'],
     'C10': ['K-tok', 'K-parse'], 'C11': ['K-parse'], 'C12': ['K-tok', 'K-parse'],
-    'C13': ['K-tok', 'K-parse', 'K-clo'], 'C14': ['K-parse', 'K-edit'], 'C15': ['K-parse', 'K-edit'],
+    'C13': ['K-tok', 'K-parse', 'K-clo', 'K-regex'], 'C14': ['K-parse', 'K-edit'], 'C15': ['K-parse', 'K-edit'],
     'C16': ['K-parse'], 'C17': ['K-tok', 'K-parse'], 'C18': ['K-args'],
     'C19': ['K-cat', 'K-tok'], 'C20': ['K-buf'],
 }
